@@ -18,11 +18,11 @@ LD = "src/ZConfig/loader.py"
 
 # ---------------------------------------------------------------- C19
 V("c19-include-no-with", "C19", "fire", "C19.R1",
-  (LD, "        with self.openResource(url) as r:\n"
-       "            self._parse_resource(section, r, defines)",
-       "        r = self.openResource(url)\n"
-       "        self._parse_resource(section, r, defines)\n"
-       "        r.close()"))
+  (LD, "            with self.openResource(url) as r:\n"
+       "                self._parse_resource(section, r, defines)",
+       "            r = self.openResource(url)\n"
+       "            self._parse_resource(section, r, defines)\n"
+       "            r.close()"))
 V("c19-read-no-finally", "C19", "fire", "C19.R",
   (LD, "            try:\n                data = file.read()\n"
        "            finally:\n                file.close()",
@@ -842,3 +842,45 @@ V("c13-cache-converted-default", "C13", "fire", "C13.R",
 V("c13-inplace-default-lists", "C13", "fire", "C13.R3",
   (MTF, "                    for key, val in v.items():\n                        v[key] = [vi.convert(ci.datatype) for vi in val]",
         "                    for val in v.values():\n                        val[:] = [vi.convert(ci.datatype) for vi in val]"))
+
+# ------------------------------------------------- supporting functions
+ZI = "src/ZConfig/__init__.py"
+V("c08-dce-order", "C08", "fire", "C08.R",
+  (ZI, "        self.lineno, self.colno, self.url = position", "        self.url, self.lineno, self.colno = position"))
+V("c08-parseerror-swap", "C08", "fire", "C08.R2",
+  (ZI, "        self.lineno = lineno\n        self.colno = colno\n        ConfigurationError.__init__(self, msg, url)",
+       "        self.lineno = colno\n        self.colno = lineno\n        ConfigurationError.__init__(self, msg, url)"))
+V("c04-replacement-error-fields", "C04", "fire", "C04.R4",
+  (ZI, "        self.source = source\n        self.name = name\n", "        self.source = name\n        self.name = source\n"))
+V("c01-unbounded-gt", "C01", "fire", "C01.R2",
+  (INFO, "        if isinstance(other, self.__class__):\n            return False\n        return True",
+         "        return False"))
+V("c01-key-max-2", "C01", "fire", "C01.R2",
+  (INFO, "        BaseKeyInfo.__init__(self, name, datatype, minOccurs, 1,\n                             handler, attribute)",
+         "        BaseKeyInfo.__init__(self, name, datatype, minOccurs, 2,\n                             handler, attribute)"))
+V("c01-section-not-section", "C01", "fire", "C01.R2",
+  (INFO, "    def issection(self):\n        return True\n\n    def allowUnnamed(self):\n        return self.name == \"*\"",
+         "    def issection(self):\n        return False\n\n    def allowUnnamed(self):\n        return self.name == \"*\""))
+V("c13-registry-shared-stock", "C13", "fire", "C13.R5",
+  (DT, "            stock = stock_datatypes.copy()", "            stock = stock_datatypes"))
+V("c13-loadschema-shared-loader", "C13", "fire", "C13.R5",
+  (LD, "    return SchemaLoader().loadURL(url)", "    return _shared_loader.loadURL(url)"),
+  (LD, "def loadSchemaFile(file, url=None):", "_shared_loader = None\n\n\ndef loadSchemaFile(file, url=None):"))
+V("c19-enter-none", "C19", "fire", "C19.R2",
+  (LD, "    def __enter__(self):\n        return self", "    def __enter__(self):\n        return self.file"))
+V("c09-regex-ignorecase", "C09", "fire", "C09.R4",
+  (DT, "        self._rx = re.compile(regex)", "        self._rx = re.compile(regex, re.IGNORECASE)"))
+V("c09-range-bounds-swapped", "C09", "fire", "C09.R4",
+  (DT, "        self._min = min\n        self._max = max", "        self._min = max\n        self._max = min"))
+V("c18-urlunsplit-slice", "C18", "fire", "C18.R2",
+  ("src/ZConfig/url.py", "        url = \"file://\" + url[5:]  # pragma: no cover\n    return url\n\n\ndef urldefrag",
+   "        url = \"file://\" + url[6:]  # pragma: no cover\n    return url\n\n\ndef urldefrag"))
+V("c20-get-or-post-lower", "C20", "fire", "C20.R7",
+  (LH, "    value = value.upper()\n    if value not in ('GET', 'POST'):", "    value = value.lower()\n    if value not in ('GET', 'POST'):"))
+V("c20-smtp-either", "C20", "fire", "C20.R5",
+  (LH, "        if (username or password) and not (username and password):", "        if (username and password) and not (username or password):"))
+V("c20-http-url-no-path-ok", "C20", "fire", "C20.R7",
+  (LH, "    if not path:\n        raise ValueError('url must specify a path')\n", ""))
+V("c17-loadfile-shared-context", "C17", "fire", "C17.R3",
+  (SLF, "    def __init__(self):\n        self.top = Section()\n        self.sections = []",
+        "    top = Section()\n\n    def __init__(self):\n        self.sections = []"))
